@@ -38,6 +38,8 @@ def gen_cases(tier, seed):
             n = 16
         out.append({"seed": int(rng.integers(1 << 30)), "backend": bk, "n": n, "windows": int(rng.integers(1, 4)), "local": bool(rng.random() < 0.4),
                     "dmm": bool(rng.random() < 0.4), "cap": int(rng.choice([1024, 1024, 8])) if bk == "mps" else 0})
+        if i % 5 == 4:  # non-interacting atoms (zero user matrix / cutoff above every coupling) with different drives per atom
+            out[-1].update(imat=str(rng.choice(["zero", "cutoff-all"])), local=True, dmm=True)
     return out
 
 
@@ -80,13 +82,18 @@ def run_case(case):
     times = sorted({min(1.0, t) for t in times} | {1.0})
     M = emu_sv if bk == "sv" else emu_mps
     obs = [M.Energy(evaluation_times=times), M.EnergySecondMoment(evaluation_times=times if n <= 10 else [1.0])]
+    ikw = {}
+    if case.get("imat") == "zero":
+        ikw["interaction_matrix"] = np.zeros((n, n)).tolist()
+    elif case.get("imat") == "cutoff-all":
+        ikw["interaction_cutoff"] = 1e9
     norms = []
     cnt = {k: 0 for k in REQUIRED}
     viol, worst = [], {}
     try:
         if bk == "sv":
             ktol = float(10.0 ** float(rng.choice([-8, -10])))
-            cfg = emu_sv.SVConfig(dt=dt, krylov_tolerance=ktol, observables=obs, log_level=e2e.quiet(), gpu=False)
+            cfg = emu_sv.SVConfig(dt=dt, krylov_tolerance=ktol, observables=obs, log_level=e2e.quiet(), gpu=False, **ikw)
             o_step = svi.SVBackendImpl.step
 
             def step(self, idx, _o=o_step):
@@ -104,7 +111,7 @@ def run_case(case):
         else:
             prec = float(10.0 ** float(rng.choice([-5, -6, -8])))
             cfg = emu_mps.MPSConfig(dt=dt, precision=prec, max_bond_dim=case["cap"], observables=obs, log_level=e2e.quiet(), num_gpus_to_use=0,
-                                    optimize_qubit_ordering=bool(rng.random() < 0.5))
+                                    optimize_qubit_ordering=bool(rng.random() < 0.5), **ikw)
             o_tc = mpi.MPSBackendImpl.timestep_complete
 
             def tc(self, _o=o_tc):
